@@ -132,6 +132,19 @@ def history(rng: random.Random, universe, n_ops, swarm, model: Model | None = No
             ops.append({'op': 'restart'})
         else:
             ops.append({'op': 'checkpoint'})
+    if swarm.get('external') and m.installed and rng.random() < 0.5:
+        # an upgrade script run by ANOTHER process while this one keeps running: it removes
+        # the lexicon added last (its row number becomes free) and adds a different one
+        last = m.installed[-1]
+        others = [res for res in resources if m.plan_add(res['lexicons'])
+                  and last not in res['lexicons']
+                  and all(m.idx[sp].base is None for sp in res['lexicons'])]
+        if others:
+            res = rng.choice(others)
+            ops.append({'op': 'external', 'do': {'op': 'remove', 'spec': last}})
+            m.remove_specs(m.select(last))
+            ops.append({'op': 'external', 'do': {'op': 'add', 'res': res['name']}})
+            m.add_resource(res['lexicons'])
     if swarm.get('external') and len(ops) > 2:
         # one of the later mutations is performed by a second process
         cands = [i for i, op in enumerate(ops) if i >= 1 and op['op'] in ('add', 'remove')
